@@ -91,13 +91,14 @@ def run(ctx):
                 why = 'first argument of sort_fn is %s' % A.short(argp, 60)
         rep.ob('NC', K.key(base, 'sort', 'never-compares-examples(%s)' % bname), ok_nc, c, why)
     rets = [r for r in flow.returns_of(fn) if r.value is not None]
-    ok_sl = bool(rets) and all(isinstance(r.value, ast.Subscript) and A.is_name(r.value.value, 'self')
-                               and isinstance(r.value.slice, ast.Name) for r in rets)
+    ok_sl = bool(rets) and all(isinstance(r.value, ast.Subscript) and A.is_name(r.value.value, 'self') for r in rets)
     if ok_sl:
         for r in rets:
-            defs = flow.assigned_names(fn).get(r.value.slice.id, [])
+            sl = r.value.slice
+            # the order is computed by sort_fn: written in place or held in a local all of whose definitions are
+            defs = flow.assigned_names(fn).get(sl.id, []) if isinstance(sl, ast.Name) else [sl]
             ok_sl = ok_sl and bool(defs) and all(any(isinstance(x, ast.Call) and A.is_name(x.func, 'sort_fn')
-                                                      for x in ast.walk(d)) for d in defs)
+                                                      for x in ast.walk(flow.expand(d, fn))) for d in defs)
     rep.ob('SL', K.key(base, 'sort', 'returns-self[order-from-sort_fn]'), ok_sl, rets[0] if rets else fn,
            '' if ok_sl else 'sort must return self[<order computed by sort_fn>] so that keys stay attached')
     # ---------------- groupby
